@@ -57,6 +57,11 @@ class Maker:
     def type_error(self, x):
         return len(x)
 
+    def raise_lib(self, x):
+        # exception classes that the proxy machinery itself uses for its own control flow
+        import queue
+        raise [TimeoutError, EOFError, queue.Empty, ConnectionResetError, TimeoutError][x % 5]('from the hosted method', x)
+
     def noop(self):
         return None
 
